@@ -1,5 +1,4 @@
-CLAIMED = False
-NOT_YET = "being finished (seeds 1..6 + thorough run pending)"
+CLAIMED = True
 
 CFG = dict(
     rule="four case kinds, each against the real code. F (1 per run): go/ast re-reads saveState's ordered file-system steps with their error "
